@@ -67,8 +67,9 @@ class PyTemp:
         return True
 
     def fileno(self):
-        import io
-        raise io.UnsupportedOperation()
+        if getattr(self, '_fd', None) is None:
+            self._fd = fakefs.new_fd(lambda: len(self.d))
+        return self._fd
 
 
 class RecordingSHA1:
@@ -131,11 +132,39 @@ def install(fs):
     WF.uuid = types.SimpleNamespace(uuid4=_uuid4)
     wpull.util.datetime_str = lambda: '2020-01-02T03:04:05Z'
     wpull.body.new_temp_file = lambda directory=None, hint='': PyTemp(hint)
-    R.io = types.SimpleNamespace(BytesIO=_bytesio, TextIOWrapper=None)
+    R.io = types.SimpleNamespace(BytesIO=_bytesio, TextIOWrapper=_TextW)
+    R.NamedTemporaryFile = lambda **k: _FakeNamedTemp(fs, k.get('prefix', 'tmp') + 'log' + k.get('suffix', ''))
     shim = types.SimpleNamespace(**{k: getattr(asyncio, k) for k in ('coroutine', 'TimeoutError', 'StreamWriter', 'iscoroutine', 'iscoroutinefunction')
                                     if hasattr(asyncio, k)})
     shim.wait_for = _wait_for
     HC.asyncio = shim
+
+
+class _TextW:
+    """io.TextIOWrapper stand-in (the recorder wraps its gzip log file in one)."""
+    def __init__(self, f, encoding='utf-8'):
+        self.f = f
+        self.encoding = encoding
+
+    def write(self, text):
+        self.f.write(text.encode(self.encoding))
+        return len(text)
+
+    def flush(self):
+        pass
+
+    def close(self):
+        self.f.close()
+
+
+class _FakeNamedTemp:
+    """tempfile.NamedTemporaryFile(delete=False) stand-in: creates an (empty) file in the fake file system."""
+    def __init__(self, fs, name):
+        self.name = name
+        fs.files[name] = b''
+
+    def close(self):
+        pass
 
 
 def _bytesio(data=b''):
